@@ -20,7 +20,7 @@ use std::time::Duration;
 pub static INFO: PropInfo = PropInfo {
     id: "C09",
     level: "exploration",
-    rule: "two kinds of evaluation. (A) simulated sessions with small channel budgets (8-64 KB) and long lossy histories, submissions kept 'within budget' (accepted by can_send_message AND slice-rounded bytes submitted-but-not-yet-obtained <= receive budget); the monitor reads, after every arrival / drain / tick, the accounted memory of every channel (send side: public API; receive side: hook) and asserts 0 <= m <= max, that unreliable send memory is back after every flush, that after a full drain an unreliable receive channel accounts at most the fragments that saw a slice less than 3 s before the receiver's last update, that no endpoint disconnects with ReliableChannelMaxMemoryReached, and at a quiescent point (everything obtained and acknowledged, >= 3 s idle, drained) that every channel offers its whole budget and accounts 0 received bytes. (B) heap trend: a lean client/server pair runs 24-48 identical lossy+duplicating cycles; the live heap (counting global allocator) is recorded at the drained quiescent point after each cycle and must not keep growing (growth in both the 2nd and the 3rd third above a constant slack). Non-trivial = faults occurred AND at least one duplicate of an already consumed message arrived AND the quiescent point was reached; distinct = distinct event-log fingerprints.",
+    rule: "three kinds of evaluation. (A) simulated sessions with small channel budgets (8-64 KB) and long lossy histories, submissions kept 'within budget' (accepted by can_send_message AND slice-rounded bytes submitted-but-not-yet-obtained <= receive budget); the monitor reads, after every arrival / drain / tick, the accounted memory of every channel (send side: public API; receive side: hook) and asserts 0 <= m <= max, that unreliable send memory is back after every flush, that after a full drain an unreliable receive channel accounts at most the fragments that saw a slice less than 3 s before the receiver's last update, that no endpoint disconnects with ReliableChannelMaxMemoryReached, and at a quiescent point (everything obtained and acknowledged, >= 3 s idle, drained) that every channel offers its whole budget and accounts 0 received bytes. (B) heap trend: a lean client/server pair runs 24-48 identical lossy+duplicating cycles; the live heap (counting global allocator) is recorded at the drained quiescent point after each cycle and must not keep growing (growth in both the 2nd and the 3rd third above a constant slack). (C) exact fill: a client/server pair with one budget (1 byte .. 64 KB, multiples and non-multiples of the 1200-byte slice) for both reliable kinds and both roles; without consulting can_send_message the driver submits messages (0 bytes .. several slices, slice-rounded size = size) whose lengths add up to exactly the budget, judged by a shadow (sum of the lengths of the messages whose ids are still unacknowledged, hook); at every step can_send_message must accept what the shadow says fits, channel_available_memory must equal budget - shadow, no endpoint may disconnect with ReliableChannelMaxMemoryReached, and after the acknowledgements the whole budget must be back; repeated 3 times per run over clean or lossy links. Non-trivial = faults occurred AND at least one duplicate of an already consumed message arrived AND the quiescent point was reached; distinct = distinct event-log fingerprints.",
     assumptions: &[
         "'within budget' window as defined in DESIGN C09",
         "heap trend compares successive quiescent points of a steady workload with a 32 KB slack (containers keep capacity)",
@@ -32,6 +32,7 @@ pub static INFO: PropInfo = PropInfo {
         ("late_slice_with_older_missing", 1),
         ("unreliable_fragment_expired_checked", 5),
         ("trend_runs_completed", 2),
+        ("fill_exact", 50),
     ],
     engines_quick: &["e1", "e2"],
     engines_thorough: &["e1", "e2"],
@@ -47,16 +48,17 @@ pub fn one_run(ctx: &Ctx, out: &mut Outcome, run_seed: u64) {
     let mode = match ctx.replay_mode.as_deref() {
         Some("trend") => 1,
         Some("session") => 0,
-        _ => {
-            if r.below(40) == 0 {
-                1
-            } else {
-                0
-            }
-        }
+        Some("fill") => 2,
+        _ => match r.below(40) {
+            0 => 1,
+            1..=8 => 2,
+            _ => 0,
+        },
     };
     if mode == 1 {
         trend(ctx, out, run_seed, &mut r);
+    } else if mode == 2 {
+        fill(ctx, out, run_seed, &mut r);
     } else {
         session(ctx, out, run_seed, &mut r);
     }
@@ -643,4 +645,165 @@ fn trend(ctx: &Ctx, out: &mut Outcome, run_seed: u64, r: &mut Rng) {
     }
     out.eval(fp.finish(), l.late_dups > 0);
     out.sample(json!({"mode": "trend", "run_seed": format!("{:#x}", run_seed), "cycles": n, "quiescent_heap_levels": levels.iter().step_by(4).collect::<Vec<_>>() }));
+}
+
+// ------------------------------------------------------------------------------------------
+// (C) exact fill: the budget itself is usable, byte for byte
+// ------------------------------------------------------------------------------------------
+
+/// Submits, without consulting `can_send_message`, reliable messages whose lengths add up to exactly
+/// the channel budget (judged by a shadow: lengths of the messages whose ids are still unacknowledged)
+/// and expects no memory disconnect, `can_send_message` agreeing with the shadow at every step, the
+/// public available-memory figure equal to budget - shadow, and the whole budget back after the acks.
+fn fill(ctx: &Ctx, out: &mut Outcome, run_seed: u64, r: &mut Rng) {
+    let budget = match r.below(4) {
+        0 => 1200 * r.urange(1, 40),
+        1 => r.urange(1, 1200),
+        2 => *r.pick(&[1usize, 2, 1199, 1201, 2400, 3600, 65_536]),
+        _ => r.urange(1201, 50_000),
+    };
+    let resend = *r.pick(&[0u64, 50, 300]);
+    let chans = vec![
+        ChanSpec { id: 0, kind: Kind::Unreliable, resend_ms: 0, max_mem: budget },
+        ChanSpec { id: 1, kind: Kind::ReliableUnordered, resend_ms: resend, max_mem: budget },
+        ChanSpec { id: 2, kind: Kind::ReliableOrdered, resend_ms: resend, max_mem: budget },
+    ];
+    let cc = ConnectionConfig {
+        available_bytes_per_tick: 60_000,
+        server_channels_config: chans.iter().map(|c| c.to_config()).collect(),
+        client_channels_config: chans.iter().map(|c| c.to_config()).collect(),
+    };
+    let mut server = RenetServer::new(cc.clone());
+    let id = 78;
+    server.add_connection(id);
+    let mut client = RenetClient::new(cc);
+    client.set_connected();
+    let mut l = Lean { server, client, id, flight: Vec::new(), tick: 0, outstanding: [[0; 4]; 2], next_idx: [[0; 4]; 2], late_dups: 0 };
+    let dir = if r.chance(1, 2) { UP } else { DOWN };
+    let ch = r.range(1, 2) as u8;
+    let kind = chans[ch as usize].kind.short();
+    let tag = r.next_u64();
+    let lossy = r.chance(1, 2);
+    let mut lens: Vec<usize> = Vec::new(); // message id -> length (ids are assigned in submission order)
+    let mut hist: Vec<String> = Vec::new();
+    let mut fp = Fnv::new();
+    fp.u64(budget as u64);
+    fp.u64(((dir as u64) << 8) | ch as u64);
+    let mut exact_fills = 0u64;
+    let report = |out: &mut Outcome, sig: String, clause: &str, detail: String, hist: &Vec<String>| {
+        out.violation(
+            ctx,
+            &sig,
+            clause,
+            detail,
+            json!({"property": "C09", "engine": ctx.engine, "run_seed": format!("{:#x}", run_seed), "mode": "fill", "budget": budget, "dir": dir, "ch": ch, "history": hist}),
+        );
+    };
+    'rounds: for round in 0..3 {
+        let mut steps = 0;
+        loop {
+            let sender: &RenetClient = if dir == UP { &l.client } else { l.server.verif_connection(id).unwrap() };
+            let unacked = sender.verif_unacked(ch).unwrap_or_default();
+            let used: usize = unacked.iter().map(|i| lens.get(*i as usize).copied().unwrap_or(0)).sum();
+            let avail = watchdog::catch(|| sender.channel_available_memory(ch)).unwrap_or(usize::MAX);
+            out.count("fill_steps");
+            if avail != budget - used.min(budget) {
+                report(out, format!("C09/available-memory-differs-from-unacked-bytes/{kind}"), "send-side bytes are accounted while unacknowledged and come back when acknowledged", format!("ch {} dir {}: available {} but budget {} - unacknowledged bytes {} = {}", ch, dir, avail, budget, used, budget - used.min(budget)), &hist);
+                break 'rounds;
+            }
+            let room = budget - used;
+            steps += 1;
+            // a piece whose slice-rounded size equals its size (receive side accounts whole slices)
+            let exact = steps > 6 || r.chance(1, 3);
+            let want = if exact { room } else { r.urange(0, room) };
+            let len = if want > 1200 { want / 1200 * 1200 } else { want };
+            let fits = if dir == UP { l.client.can_send_message(ch, len) } else { l.server.can_send_message(id, ch, len) };
+            hist.push(format!("round {} tick {}: unacked bytes {} of {}, submit {} bytes (can_send_message={})", round, l.tick, used, budget, len, fits));
+            if !fits {
+                report(out, format!("C09/within-budget-message-refused/{kind}"), "traffic within budget is never refused or disconnected for exhausted channel memory", format!("ch {} dir {}: can_send_message({}) is false with {} of {} bytes unacknowledged", ch, dir, len, used, budget), &hist);
+                break 'rounds;
+            }
+            let b = Bytes::from(payload::make(0, dir, ch, 0, lens.len() as u64, len, tag));
+            let len = b.len(); // payload::make may pad up to its header size
+            if len > room {
+                // header-padded payload does not fit: settle and start the next round
+                hist.pop();
+            } else {
+                lens.push(len);
+                fp.u64(len as u64);
+                if dir == UP {
+                    l.client.send_message(ch, b);
+                } else {
+                    l.server.send_message(id, ch, b);
+                }
+                if used + len == budget {
+                    exact_fills += 1;
+                    out.count("fill_exact");
+                    // an empty message still fits a channel that is exactly full
+                    if r.chance(1, 2) {
+                        let fits0 = if dir == UP { l.client.can_send_message(ch, 0) } else { l.server.can_send_message(id, ch, 0) };
+                        hist.push(format!("round {} tick {}: channel exactly full, submit 0 bytes (can_send_message={})", round, l.tick, fits0));
+                        if !fits0 {
+                            report(out, format!("C09/within-budget-message-refused/{kind}"), "traffic within budget is never refused or disconnected for exhausted channel memory", format!("ch {} dir {}: can_send_message(0) is false on a channel holding exactly its budget {}", ch, dir, budget), &hist);
+                            break 'rounds;
+                        }
+                        lens.push(0);
+                        out.count("fill_empty_on_full");
+                        if dir == UP {
+                            l.client.send_message(ch, Bytes::new());
+                        } else {
+                            l.server.send_message(id, ch, Bytes::new());
+                        }
+                    }
+                }
+            }
+            let full = used + len >= budget || len > room;
+            if r.chance(1, 3) || full {
+                l.pump(r, lossy && !full, 16);
+            }
+            for (side, reason) in [("client", l.client.disconnect_reason()), ("server", l.server.verif_connection(id).and_then(|c| c.disconnect_reason()))] {
+                let Some(reason) = reason else { continue };
+                let mem = matches!(
+                    reason,
+                    DisconnectReason::SendChannelError { error: ChannelError::ReliableChannelMaxMemoryReached, .. }
+                        | DisconnectReason::ReceiveChannelError { error: ChannelError::ReliableChannelMaxMemoryReached, .. }
+                );
+                if mem {
+                    let which = if matches!(reason, DisconnectReason::SendChannelError { .. }) { "send" } else { "receive" };
+                    report(out, format!("C09/spurious-memory-disconnect/{which}/{kind}"), "traffic within budget with a promptly draining application is never disconnected for exhausted channel memory", format!("{} disconnected with {:?} although the unacknowledged bytes never exceeded the budget {}", side, reason, budget), &hist);
+                } else {
+                    out.count("fill_runs_void_disconnected");
+                }
+                break 'rounds;
+            }
+            if full {
+                break;
+            }
+        }
+        // settle on a clean link: everything acknowledged, the whole budget is back
+        let mut settled = false;
+        for _ in 0..3000 {
+            l.pump(r, false, 16);
+            let sender: &RenetClient = if dir == UP { &l.client } else { l.server.verif_connection(id).unwrap() };
+            if sender.verif_unacked(ch).map_or(true, |v| v.is_empty()) && l.flight.is_empty() {
+                settled = true;
+                break;
+            }
+        }
+        if !settled {
+            out.count("fill_runs_void_not_settled");
+            break;
+        }
+        let sender: &RenetClient = if dir == UP { &l.client } else { l.server.verif_connection(id).unwrap() };
+        let avail = watchdog::catch(|| sender.channel_available_memory(ch)).unwrap_or(usize::MAX);
+        if avail != budget {
+            report(out, format!("C09/send-memory-not-returned/{kind}"), "when all reliable messages are received and acknowledged every channel offers its whole budget", format!("ch {} dir {}: available {} != budget {} after everything was acknowledged", ch, dir, avail, budget), &hist);
+            break;
+        }
+    }
+    out.count("fill_runs");
+    out.eval(fp.finish(), exact_fills > 0);
+    if exact_fills > 0 && r.chance(1, 50) {
+        out.sample(json!({"mode": "fill", "run_seed": format!("{:#x}", run_seed), "budget": budget, "dir": dir, "ch": ch, "exact_fills": exact_fills, "messages": lens.len()}));
+    }
 }
